@@ -39,7 +39,7 @@ Step(ev) ==
          /\ UNCHANGED S
          /\ ev.npalp = S.npalp /\ ev.sorted /\ ev.hyper_ok
          /\ IF ev.mode = "regular"
-            THEN ev.counts = <<S.fruits, S.droplets, S.tiny, Min(S.take, ev.counts[4])>> /\ (S.take < Unlimited => ev.counts[4] = S.take)
+            THEN ev.counts = <<S.fruits, S.droplets, S.tiny>> /\ (ev.takeleft >= 0 => ev.takeleft = S.take)
             ELSE ev.rows = S.rows
     [] ev.ev = "attrs" ->
          /\ UNCHANGED S
